@@ -31,7 +31,7 @@ KINDS = ["f", "i", "b", "s", "u", "d", "t", "td", "o", "ob"]
 NAMES = gen.NAMES_PLAIN + gen.NAMES_CLASH + gen.NAMES_NONID[:3] + ["__id", "__k__", "_x", "_"]     # identifiers Python treats specially
 INPLACE = ["setitem", "setitem", "setattr", "setdefault", "ior", "delitem", "delattr", "pop", "popitem", "colnames"]
 TRANSFORM = ["filter", "slice", "head", "tail", "drop_na", "sample", "unique", "sort", "select", "unselect", "rename",
-             "modify", "modify_callable", "modify_grouped", "cbind", "rbind", "update", "left_join", "inner_join", "semi_join",
+             "modify", "modify_callable", "modify_grouped", "cbind", "cbind", "rbind", "update", "left_join", "inner_join", "semi_join",
              "anti_join", "full_join", "aggregate", "count", "copy", "deepcopy"]
 CONVERT = ["lod", "json", "pandas", "arrow", "csv", "json_file", "npz", "parquet", "pickle"]
 BUILTIN = set(dir(di.DataFrame()))
